@@ -91,14 +91,16 @@ def run(ctx: Ctx) -> Result:
     for i, h in enumerate(hists):
         models, psets, inits = {}, {}, {}
         for mk in ("1", "2"):
-            m = gen.rand_model(rng, PROF)
+            # histories that are redone in other processes use a model with several restricted variables: their order must
+            # not depend on the hash seed
+            m = gen.rand_model(rng, {**PROF, "p_r": 1.0, "p_q": 1.0, "p_b": 1.0, "p_b_in_filter": 0.7, "max_cells": 700} if (i % 3 == 0 and mk == "1") else PROF)
             models[mk] = m
             psets[mk] = param_variants(rng, m)
             inits[mk] = {"1": qinit(gen.rand_initial_states(rng, m, 3)), "2": qinit(gen.rand_initial_states(rng, m, 5))}
         specs.append({"cid": i, "models": models, "paramsets": psets, "inits": inits, "seeds": {"1": 11, "2": 2024}, "hist": h,
                       "leafs": [rng.choice(["float", "numpy", "jax"]) for _ in h],
                       "debug": {str(k + 1): rng.random() < 0.3 for k in range(len(h))},
-                      "extern_hashseeds": (["1", "2", "random"] if ctx.thorough else [rng.choice(["1", "2", "random"])]) if i % 3 == 0 else []})
+                      "extern_hashseeds": (["3", "4", "7", "random"] if ctx.thorough else rng.sample(["1", "3", "4", "7", "random"], 2)) if i % 3 == 0 else []})
     done = history.run_histories(specs, nproc=8)
     traces = [d[0] for d in done]
     verdicts, st = tlc.validate_traces("TraceApi", traces)
